@@ -119,8 +119,17 @@ impl World {
         self.stats.ev("inject.fired");
         self.collect_vios("injected panic");
         self.post_panic = true;
+        let nfails = self.fails.len();
         let obs = self.observe_side(self.active, Level::Full, false);
         self.post_panic = false;
+        // what is wrong right after a panic inside retain / mutate / clone is
+        // also that operation's business
+        let own: Option<&'static str> = match name { "retain" => Some("C15"), "mutate" => Some("C11"), "clone" => Some("C14"), _ => None };
+        if let Some(tag) = own {
+            for f in self.fails.iter_mut().skip(nfails) {
+                if !f.has(tag) { f.tags.push(tag); }
+            }
+        }
         let obs = match obs {
             Some(o) => o,
             None => return,
@@ -185,13 +194,31 @@ impl World {
         let obs = match self.observe(level) {
             Some(o) => o,
             None => {
+                // an operation that wrecks the structure also breaks its own contract
+                let own: Option<&'static str> = match info.name {
+                    "mutate" => Some("C11"),
+                    "retain" => Some("C15"),
+                    "clone" => Some("C14"),
+                    "iterwalk" | "drain" => Some("C12"),
+                    "reserve" | "try_reserve" | "shrink_to" | "shrink_to_fit" => Some("C13"),
+                    _ => None,
+                };
+                if let Some(tag) = own {
+                    let step = self.step;
+                    for f in self.fails.iter_mut().filter(|f| f.step == step) {
+                        if !f.has(tag) { f.tags.push(tag); }
+                    }
+                }
                 // the list cannot be traversed; the table still answers lookups
                 if let (true, Some(sub), false) = (info.evicting, info.subject, info.subject_rejected) {
                     let q = TKey::new(sub, 0);
                     let there = self.side().cache().contains(&q);
                     drop(q);
-                    ck!(self, there, ["C03"], format!("subject-evicted:{}", info.name),
-                        "{} evicted the very entry {} it inserted/mutated", info.name, sub);
+                    let tags: Vec<&'static str> = if info.name == "mutate" { vec!["C03", "C11"] } else { vec!["C03"] };
+                    if !there {
+                        self.fail(tags, format!("subject-evicted:{}", info.name),
+                            format!("{} evicted the very entry {} it inserted/mutated", info.name, sub));
+                    }
                 }
                 return;
             },
@@ -254,8 +281,11 @@ impl World {
                     info.name, unasked, brief(&cand));
                 if let Some(sub) = info.subject {
                     if !info.subject_rejected {
-                        ck!(self, post_set.contains(&sub), ["C03"], format!("subject-evicted:{}", info.name),
-                            "{} evicted the very entry {} it inserted/mutated", info.name, sub);
+                        if !post_set.contains(&sub) {
+                            let tags: Vec<&'static str> = if info.name == "mutate" { vec!["C03", "C11"] } else { vec!["C03"] };
+                            self.fail(tags, format!("subject-evicted:{}", info.name),
+                                format!("{} evicted the very entry {} it inserted/mutated", info.name, sub));
+                        }
                     }
                 }
                 if let Some(&last) = unasked.last() {
